@@ -8,6 +8,7 @@ it (they may fail closed where the value is known today).
 from __future__ import annotations
 
 import ast
+import re
 from collections.abc import Callable
 
 from gv.cfg import CFG
@@ -216,3 +217,96 @@ def possibly_unbound(func: ast.AST) -> list[tuple[ast.Name, str]]:
                 if isinstance(x, ast.Name) and isinstance(x.ctx, ast.Load) and x.id in local and "undef" in env.get(x.id, DEF):
                     out.append((x, x.id))
     return out
+
+
+class SymValues:
+    """Symbolic unfolding of locals: the expressions a sub-expression may stand for at its program point.
+
+    The abstract value of a local is the set of its possible defining expressions (as text), each with the locals it
+    reads already replaced by THEIR defining expressions (reaching definitions composed along the CFG).  A rule that
+    asks "is this argument ``normalize_vect(get_upper_bounds())``" then gets the same answer whether the code
+    writes the expression in place, through one local, or through a local re-assigned under a condition (combine with
+    ``shapes.specialise`` to fix the condition).  More than ``max_alts`` alternatives, an expression longer than
+    ``max_len`` or a loop-carried value make the local opaque: it stays as its own name.
+    """
+
+    def __init__(self, func: ast.AST, *, max_alts: int = 4, max_len: int = 300):
+        import copy
+        import itertools
+
+        from gv.cfg import cfg_of
+
+        self.func = func
+        self.cfg = cfg_of(func)
+        self.max_alts, self.max_len = max_alts, max_len
+        self._copy, self._product = copy.deepcopy, itertools.product
+
+        def aug(node: ast.AugAssign, env):
+            if not isinstance(node.target, ast.Name):
+                return UNKNOWN
+            e = ast.BinOp(left=ast.Name(id=node.target.id, ctx=ast.Load()), op=node.op, right=node.value)
+            return self._ev(ast.fix_missing_locations(ast.copy_location(e, node)), env)
+
+        def effect(node, env):
+            # a store into ``p.q`` / ``p[i]`` makes every local whose unfolded value reads ``p.q`` / ``p[...]`` opaque
+            stored = []
+            if isinstance(node, (ast.Assign, ast.AugAssign, ast.AnnAssign, ast.Delete)):
+                tgts = node.targets if isinstance(node, (ast.Assign, ast.Delete)) else [node.target]
+                for t in tgts:
+                    for sub in ast.walk(t):
+                        if isinstance(sub, ast.Attribute) and isinstance(sub.ctx, (ast.Store, ast.Del)):
+                            stored.append(ast.unparse(sub))
+                        elif isinstance(sub, ast.Subscript) and isinstance(sub.ctx, (ast.Store, ast.Del)):
+                            stored.append(ast.unparse(sub.value))
+            if not stored:
+                return None
+            new = dict(env)
+            for k, v in env.items():
+                if any(re.search(r"(?<![\w.])" + re.escape(p_) + r"(?!\w)", txt) for txt in v for p_ in stored):
+                    new[k] = UNKNOWN
+            return new
+
+        self.fw = Forward(self.cfg, self._ev, init={}, aug=aug, effect=effect)
+
+    def _alts(self, name: str, env) -> list[str] | None:
+        v = env.get(name)
+        if v is None or "?" in v or len(v) > self.max_alts or any(len(s) > self.max_len for s in v):
+            return None
+        return sorted(v)
+
+    def _ev(self, e: ast.AST, env) -> frozenset:
+        names = []
+        for n in ast.walk(e):
+            if isinstance(n, ast.Name) and isinstance(n.ctx, ast.Load) and n.id not in names and self._alts(n.id, env) is not None:
+                names.append(n.id)
+        # names bound inside the expression (comprehension variables, lambda parameters) are not locals of the function
+        bound = {t.id for n in ast.walk(e) if isinstance(n, ast.comprehension) for t in ast.walk(n.target) if isinstance(t, ast.Name)}
+        bound |= {a.arg for n in ast.walk(e) if isinstance(n, ast.Lambda) for a in n.args.args}
+        names = [n for n in names if n not in bound]
+        if not names:
+            return frozenset({ast.unparse(e)})
+        choices = [self._alts(n, env) for n in names]
+        total = 1
+        for c in choices:
+            total *= len(c)
+        if total > self.max_alts * 2:
+            return frozenset({ast.unparse(e)})
+        out = set()
+        for combo in self._product(*choices):
+            sub = dict(zip(names, combo))
+
+            class R(ast.NodeTransformer):
+                def visit_Name(self, n):  # noqa: N802
+                    if isinstance(n.ctx, ast.Load) and n.id in sub:
+                        return ast.copy_location(ast.parse(sub[n.id], mode="eval").body, n)
+                    return n
+
+            out.add(ast.unparse(R().visit(self._copy(e))))
+        return frozenset(out)
+
+    def texts(self, expr: ast.AST) -> list[str]:
+        """The unfolded alternatives of ``expr`` (a node of the function) at its program point."""
+        return sorted(self._ev(expr, self.fw.at(expr)))
+
+    def exprs(self, expr: ast.AST) -> list[ast.AST]:
+        return [ast.parse(t, mode="eval").body for t in self.texts(expr)]
